@@ -4,6 +4,7 @@
 #include <verif.hpp>
 #include <tracked.hpp>
 
+#include <atomic>
 #include <string>
 #include <vector>
 
@@ -52,7 +53,11 @@ struct ElemT16 {  // 16 bytes and non-trivial -> copy loser trees holding ledger
     int key;
     uint16_t seq, pos;
     int* heap;
-    ElemT16() : key(0), seq(0), pos(0), heap(new int(0)) { verif::Ledger::get().ctor(this); }
+    // a default-constructed element is a placeholder, not an element of any input: its key is a poison
+    // value, and the comparators below record every call that sees one
+    static const int PLACEHOLDER = -555555;
+    static std::atomic<unsigned>& placeholder_compares() { static std::atomic<unsigned> n{ 0 }; return n; }
+    ElemT16() : key(PLACEHOLDER), seq(0), pos(0), heap(new int(0)) { verif::Ledger::get().ctor(this); }
     ElemT16(const ElemT16& o) : key(o.key), seq(o.seq), pos(o.pos), heap(nullptr) {
         verif::Ledger::get().use(&o, "copy-from-non-live-object");
         heap = new int(*o.heap);
@@ -74,8 +79,13 @@ static_assert(sizeof(ElemT16) == 16, "ElemT16 is meant to select the copy-based 
 VERIF_MISLEADING_ORDER(ElemT16, key)
 VERIF_MISLEADING_EQUALITY(ElemT16, key)
 
-template <typename E> struct KeyLess { bool operator()(const E& a, const E& b) const { return a.key < b.key; } };
-template <typename E> struct KeyGreater { bool operator()(const E& a, const E& b) const { return a.key > b.key; } };
+template <typename E> inline void cmp_sees(const E&, const E&) { }
+inline void cmp_sees(const ElemT16& a, const ElemT16& b) {
+    if (a.key == ElemT16::PLACEHOLDER || b.key == ElemT16::PLACEHOLDER)
+        ElemT16::placeholder_compares().fetch_add(1, std::memory_order_relaxed);
+}
+template <typename E> struct KeyLess { bool operator()(const E& a, const E& b) const { cmp_sees(a, b); return a.key < b.key; } };
+template <typename E> struct KeyGreater { bool operator()(const E& a, const E& b) const { cmp_sees(a, b); return a.key > b.key; } };
 
 static const int INF = 1 << 30;
 static const unsigned CANARY_SEQ = 0xfffe;
@@ -187,6 +197,10 @@ inline std::vector<std::pair<unsigned, unsigned> > reference(const Shape& sh) {
 template <typename E>
 inline std::string check_result(const Shape& sh, const Inputs<E>& in, const std::vector<E>& out,
                                 size_t returned, bool stable, std::string& detail) {
+    if (unsigned c = ElemT16::placeholder_compares().exchange(0)) {
+        detail = "the comparator was called " + std::to_string(c) + " time(s) with a default-constructed placeholder (not an element of any input, not the sentinel)";
+        return "comparator-called-on-placeholder";
+    }
     auto ref = reference(sh);
     if (returned != sh.length) { detail = "returned target+" + std::to_string(returned); return "return-value"; }
     std::vector<unsigned> taken(sh.k, 0);
